@@ -2,6 +2,7 @@
 from __future__ import annotations
 
 import vf.h as H
+from datetime import timedelta as _td
 from vf.h import AbsTime, done
 
 import chartparse.instrument as I
@@ -201,6 +202,30 @@ def hopo_twice(pi: int, R1: int, R2: int, gap: int, forced: bool) -> bool:
             natural = (sum(note.value) <= 1) and (note.value != pnote.value) and (3 * gap <= R + 1)
             ok = ok and got is (HOPOState.HOPO if (natural != forced) else HOPOState.STRUM)
     return done(ok)
+
+
+def _hopo_history(pi):
+    """Native, in a fresh interpreter: the same note pair judged over a sequence of resolutions and
+    distances (a process that parses charts of different resolutions one after the other)."""
+    note, pnote = PAIRS[pi]
+    ok = True
+    for R in (192, 480, 100, 1, 2, 3, 960, 192, 480):
+        for gap in (1, 2, 32, 33, 34, 64, 65, 66, 96, 160, 161, 320, 321):
+            for forced in (False, True):
+                prev = NoteEvent(tick=10, timestamp=_td(0), end_timestamp=_td(0), note=pnote, hopo_state=HOPOState.STRUM)
+                got = NoteEvent._compute_hopo_state(R, 10 + gap, note, False, forced, prev)
+                natural = (sum(note.value) <= 1) and (note.value != pnote.value) and (3 * gap <= R + 1)
+                ok = ok and got is (HOPOState.HOPO if (natural != forced) else HOPOState.STRUM)
+    return ok
+
+
+def hopo_history(pi: int) -> bool:
+    """
+    pre: 0 <= pi < len(PAIRS)
+    post: _
+    """
+    k = H.pick(list(range(len(PAIRS))), pi)
+    return done(H.isolated("harness.h_instrument", "_hopo_history", k))
 
 
 # ---------------------------------------------------------------------------------------------
